@@ -29,9 +29,9 @@ package values
 //@   requires valid(v)
 //@   nofail
 //@   env MemoryMeteringError ComputationMeteringError
-//@   modifies ghost("metered")
+//@   modifies ghost("metered"), ghost("opseen"), ghost("opmeter")
 //@   ensures[C11] num(result) == -num(v) && valid(result)
-//@   ensures[C32] gauge != nil ==> ghost("metered") >= 8 * words(num(result))
+//@   ensures[C32] gauge != nil ==> meteredfor(8 * words(num(result)))
 
 //@ func (IntValue).compare
 //@   requires valid(v) && valid(other)
